@@ -26,7 +26,7 @@ def budget(tier):
 def strategy(tier):
     @st.composite
     def s(draw):
-        c, n, tp = draw(gens.cfg(max_dim=160, frames=(2, 8), allow_twopass=False, lps=(1, 2), presets=(8, 8, 7, 6, 5), tools_p=1, allow_rc=False, exclude=("AQ1", "GRAIN", "SRES", "2PASS")))
+        c, n, tp = draw(gens.cfg(max_dim=160, frames=(2, 8), allow_twopass=False, lps=(1, 2), presets=(8, 8, 7, 6, 5), tools_p=1, allow_rc=False, exclude=("AQ1", "GRAIN", "SRES", "2PASS", "16BP")))
         cnt = draw(gens.content(kinds=(2, 3, 5, 6, 7)))
         vs = []
         for _ in range(draw(st.integers(2, 3))):
